@@ -42,6 +42,8 @@ Hm(n, t) == [k |-> "Hm", n |-> n, t |-> t]    \* Hashmap n T (non-empty, inline)
 If(fl, t) == [k |-> "If", fl |-> fl, t |-> t]                      \* fl?T with fl a one-bit field
 IfBit(fl, bit, t) == [k |-> "IfBit", fl |-> fl, bit |-> bit, t |-> t]   \* flags . bit?T
 RefPick(fl, t0, t1) == [k |-> "RefPick", fl |-> fl, t0 |-> t0, t1 |-> t1]  \* ^(T fl)
+Lite(t) == [k |-> "Lite", t |-> t]            \* same encoding as t; the value generator does not expand variations below it (t is varied on its own)
+HmAug(n, t, x) == [k |-> "HmAug", n |-> n, t |-> t, x |-> x]   \* HashmapAug n T X (non-empty, inline); entries [k, v, x]; fork extras: see ForkExtra
 F(name, t) == [name |-> name, t |-> t]
 Alt(cn, tag, fs) == [c |-> cn, tag |-> tag, fs |-> fs]
 
@@ -52,7 +54,22 @@ AltOf(nm, cn) == LET as == Schema[nm] IN as[CHOOSE i \in 1..Len(as) : as[i].c = 
 FlagBit(bits, bit) == bits[Len(bits) - bit]               \* bit number `bit` (LSB = 0) of a bit sequence
 
 \* ---- encoder: value -> cell contribution [b, r]
-RECURSIVE EncT(_, _, _), EncAlt(_, _), DictTree(_, _, _)
+\* augmented dictionaries: ahm_edge label node; ahmn_leaf extra:Y value:X; ahmn_fork left:^ right:^ extra:Y.
+\* mp : key bits -> [v |-> [b, r], x |-> [b, r]] (encoded value / extra); fx : depth -> encoded extra of a fork at that depth.
+\* TL-B does not say how a fork's extra is computed (block.tlb describes it in comments); a parser must read whatever is there.
+RECURSIVE AugTree(_, _, _, _), AugPost(_, _, _, _)
+AugTree(mp, m, fx, depth) ==
+    LET ks == DOMAIN mp  lab == Lcp(ks)  l == Len(lab)
+        lbits == LabelEnc(RefKind(l, m, l > 0 /\ AllSame(lab)), lab, m)
+    IN IF l = m THEN [b |-> lbits \o mp[lab].x.b \o mp[lab].v.b, r |-> mp[lab].x.r \o mp[lab].v.r]
+       ELSE [b |-> lbits \o fx[depth].b,
+             r |-> <<AugTree(SubMap(mp, l, m, 0), m - l - 1, fx, depth + 1), AugTree(SubMap(mp, l, m, 1), m - l - 1, fx, depth + 1)>> \o fx[depth].r]
+\* the extras in the order a depth-first parser meets them: left subtree, right subtree, then the fork's own (mp : key -> leaf extra, any value)
+AugPost(mp, m, fx, depth) ==
+    LET ks == DOMAIN mp  lab == Lcp(ks)  l == Len(lab)
+    IN IF l = m THEN <<mp[lab]>>
+       ELSE AugPost(SubMap(mp, l, m, 0), m - l - 1, fx, depth + 1) \o AugPost(SubMap(mp, l, m, 1), m - l - 1, fx, depth + 1) \o <<fx[depth]>>
+RECURSIVE EncT(_, _, _), EncAlt(_, _), DictTree(_, _, _), ForkExtraV(_, _), ZeroV(_)
 \* ctx = the record the field lives in (for conditional fields)
 EncT(t, v, ctx) ==
     CASE t.k \in {"U", "I", "Bits", "Bool", "Leq", "Zero", "One", "UMax", "UPos"} -> Only(v)
@@ -69,6 +86,12 @@ EncT(t, v, ctx) ==
       [] t.k = "Named" -> EncAlt(AltOf(t.nm, v.c), v)
       [] t.k = "HmE" -> IF v = <<>> THEN Only(<<0>>) ELSE [b |-> <<1>>, r |-> <<DictTree(t.n, t.t, v)>>]
       [] t.k = "Hm" -> DictTree(t.n, t.t, v)
+      [] t.k = "Lite" -> EncT(t.t, v, ctx)
+      [] t.k = "HmAug" ->
+            LET mp == [key \in {v[i].k : i \in 1..Len(v)} |->
+                         LET e == v[CHOOSE i \in 1..Len(v) : v[i].k = key]
+                         IN [v |-> EncT(t.t, e.v, e), x |-> EncT(t.x, e.x, e)]]
+            IN AugTree(mp, t.n, [d \in 0..t.n |-> EncT(t.x, ForkExtraV(t.x, d), <<>>)], 0)
       [] t.k = "If" -> IF ctx[t.fl] = <<1>> THEN EncT(t.t, v, ctx) ELSE Only(<<>>)
       [] t.k = "IfBit" -> IF FlagBit(ctx[t.fl], t.bit) = 1 THEN EncT(t.t, v, ctx) ELSE Only(<<>>)
       [] t.k = "RefPick" -> [b |-> <<>>, r |-> <<IF ctx[t.fl] = <<1>> THEN EncT(t.t1, v.v1, ctx) ELSE EncT(t.t0, v.v0, ctx)>>]
@@ -80,7 +103,28 @@ DictTree(n, t, entries) ==
                      enc == EncT(t, e.v, e)
                  IN [v |-> enc.b, x |-> <<>>, r |-> enc.r]]
     IN EdgeP(mp, n, "canon", FALSE, 0, 0)
+\* fork extras: alternately a fixed non-zero and the all-zero value of the extra's type (only CC, U(n) and single-alternative
+\* record types of such leaves occur as extras in block.tlb)
+ZeroV(t) == CASE t.k \in {"U", "I", "Bits"} -> [i \in 1..t.n |-> 0]
+              [] t.k = "Bool" -> <<0>>
+              [] t.k \in {"VarU", "VarI"} -> <<>>
+              [] t.k = "CC" -> [grams |-> <<>>, other |-> <<>>]
+              [] t.k = "Named" -> LET a == Schema[t.nm][1] IN
+                    [f \in {"c"} \cup {a.fs[i].name : i \in 1..Len(a.fs)} |->
+                        IF f = "c" THEN a.c ELSE ZeroV(a.fs[CHOOSE i \in 1..Len(a.fs) : a.fs[i].name = f].t)]
+ForkExtraV(t, d) ==
+    IF d % 2 = 1 THEN ZeroV(t)
+    ELSE CASE t.k \in {"U", "I", "Bits"} -> [i \in 1..t.n |-> IF i % 2 = 1 THEN 1 ELSE 0]
+           [] t.k = "Bool" -> <<1>>
+           [] t.k \in {"VarU", "VarI"} -> <<3, 9>>
+           [] t.k = "CC" -> [grams |-> <<1, 44>>, other |-> <<[k |-> NatBits(11, 32), v |-> <<6>>]>>]
+           [] t.k = "Named" -> LET a == Schema[t.nm][1] IN
+                 [f \in {"c"} \cup {a.fs[i].name : i \in 1..Len(a.fs)} |->
+                     IF f = "c" THEN a.c ELSE ForkExtraV(a.fs[CHOOSE i \in 1..Len(a.fs) : a.fs[i].name = f].t, d)]
 Encode(nm, v) == EncT(Named(nm), v, v)
+\* a value is a value of the type only if every cell of its encoding respects the cell limits
+RECURSIVE TreeFits(_)
+TreeFits(t) == Len(t.b) <= 1023 /\ Len(t.r) <= 4 /\ \A j \in 1..Len(t.r) : TreeFits(t.r[j])
 
 \* ---- flatten: every leaf with its path and the abstract value a correct parser reports
 Leaf(path, k, a) == [path |-> path, k |-> k, a |-> a]
@@ -110,6 +154,12 @@ Leaves(t, v, ctx, path) ==
                      <<Leaf(path, "Ctor", [ctor |-> v.c])>>, a.fs)
       [] t.k \in {"HmE", "Hm"} ->
             <<Leaf(path, "Count", [count |-> Len(v)])>> \o Flat2R(t, v, path, 1)
+      [] t.k = "Lite" -> Leaves(t.t, v, ctx, path)
+      [] t.k = "HmAug" ->
+            LET mpx == [key \in {v[i].k : i \in 1..Len(v)} |-> (v[CHOOSE i \in 1..Len(v) : v[i].k = key]).x]
+                post == AugPost(mpx, t.n, [d \in 0..t.n |-> ForkExtraV(t.x, d)], 0)
+            IN <<Leaf(path, "Count", [count |-> Len(v)])>> \o Flat2R(t, v, path, 1)
+               \o <<Leaf(path, "AugExtras", [extras |-> [j \in 1..Len(post) |-> Leaves(t.x, post[j], <<>>, <<>>)]])>>
       [] t.k = "If" -> IF ctx[t.fl] = <<1>> THEN Leaves(t.t, v, ctx, path) ELSE <<Leaf(path, "None", [none |-> 1])>>
       [] t.k = "IfBit" -> IF FlagBit(ctx[t.fl], t.bit) = 1 THEN Leaves(t.t, v, ctx, path) ELSE <<Leaf(path, "None", [none |-> 1])>>
       [] t.k = "RefPick" -> IF ctx[t.fl] = <<1>> THEN Leaves(t.t1, v.v1, ctx, path) ELSE Leaves(t.t0, v.v0, ctx, path)
